@@ -47,7 +47,7 @@ pub struct Outcome {
 }
 
 /// Runs one query on a fresh store; `sched` = tokens ("c" or shard number) to force, or None.
-pub fn run_query(ctl: &Arc<Ctl>, sc: &Value, ns: usize, sched: Option<&Vec<Value>>, delays: Option<(u64, u64)>) -> Outcome {
+pub fn run_query(ctl: &Arc<Ctl>, sc: &Value, ns: usize, sched: Option<&Vec<Value>>, delays: Option<(u64, u64)>, use_iter: bool) -> Outcome {
     let plan = Plan::new();
     plan.metric_limit.store(jint(sc, "limit"), Ordering::SeqCst);
     let mut store: DStore = TrackStoreBuilder::new(ns)
@@ -78,8 +78,12 @@ pub fn run_query(ctl: &Arc<Ctl>, sc: &Value, ns: usize, sched: Option<&Vec<Value
         } else {
             store.foreign_track_distances(ext, cls, baked)
         };
-        let ok = ok.all();
-        let err = err.all();
+        // both consumption modes of a distance response are part of the API: all() and the iterators
+        let (ok, err) = if use_iter {
+            (ok.into_iter().collect::<Vec<_>>(), err.into_iter().collect::<Vec<_>>())
+        } else {
+            (ok.all(), err.all())
+        };
         let _ = tx.send((ok, err, store));
     });
     let mut stuck = 0;
@@ -155,7 +159,8 @@ pub fn main(opts: &Opts) {
         rep.sample(&c);
         let sc = jget(&c, "sc");
         let ns = jint(&c, "ns") as usize;
-        let o = run_query(&ctl, sc, ns, Some(jarr(&c, "sched")), None);
+        let o = run_query(&ctl, sc, ns, Some(jarr(&c, "sched")), None, idx % 2 == 1);
+        rep.count(if idx % 2 == 1 { "consumed_by_iterator" } else { "consumed_by_all" }, 1);
         let sched = jarr(&c, "sched");
         // non-trivial: >= 2 candidates and an arrival order different from shard order, or a caller step between worker steps
         let toks: Vec<String> = sched.iter().map(|t| t.to_string()).collect();
@@ -230,7 +235,7 @@ pub fn record(opts: &Opts) {
         let limit = [1, 3, 10][rng.gen_range(0..3)];
         let sc = json!({"tracks": tracks, "cands": cands, "owned": owned, "cls": rng.gen_range(0..2),
                         "baked": rng.gen_bool(0.4), "limit": limit});
-        let o = run_query(&ctl, &sc, ns, None, Some((seed * 1000 + k as u64, max_us)));
+        let o = run_query(&ctl, &sc, ns, None, Some((seed * 1000 + k as u64, max_us)), k % 2 == 1);
         if o.hang {
             hangs += 1;
         }
